@@ -556,6 +556,26 @@ func embedsTrailingUnexported(t reflect.Type) bool {
 	return false
 }
 
+// hasTextCollection: the leaf (or a leaf inside its elements) is a named
+// slice / array of structs that implements encoding.TextUnmarshaler itself.
+func hasTextCollection(f *mfield) bool {
+	if f.kind == kLeaf {
+		t := f.otype
+		if t.Kind() == reflect.Pointer {
+			t = t.Elem()
+		}
+		if (t.Kind() == reflect.Slice || t.Kind() == reflect.Array) && t.Elem().Kind() == reflect.Struct && implementsText(t) && !implementsText(t.Elem()) {
+			return true
+		}
+	}
+	for _, c := range f.children {
+		if hasTextCollection(c) {
+			return true
+		}
+	}
+	return false
+}
+
 // hasDurKeyMap: t contains a map whose key type is time.Duration.
 func hasDurKeyMap(t reflect.Type, depth int) bool {
 	if t == nil || depth > 6 {
@@ -808,6 +828,16 @@ func runC10(c Case) vrt.Verdict {
 			}
 		}
 	}
+	for _, fe := range append(append([]FillEntry{}, c.Fill...), c.Fill2...) {
+		if tl, ok := md.pick(fe.Path, c.Sides); ok {
+			if hasTextCollection(tl.f) {
+				labels = append(labels, "filled:named-text-collection-of-structs")
+				if c.Chain.has("textunm") {
+					labels = append(labels, "filled:named-text-collection-of-structs-as-text")
+				}
+			}
+		}
+	}
 	if r.expectedErrors > 0 {
 		labels = append(labels, "expected-error:padded-text-rejected-by-its-type")
 	}
@@ -939,7 +969,7 @@ func runC10(c Case) vrt.Verdict {
 }
 
 const c10Rule = "a config struct type from the full shape grammar (scalars, durations, text-unmarshalable and named types, slices, arrays, maps, sets, user pointers, nested / pointer / embedded structs incl. embedded types with tagged and aliased fields, slices of structs, skipped fields; depth<=3, <=8 fields per struct) with generated dials / alias / source-specific / format tags whose words are known by construction; T0 = Pointerify(T); " +
-	"%s; embeddable types include structs with 2..3 differently typed nested struct members by value and by pointer between scalar leaves (hoisting them gives one input field several struct-typed outputs; leaves are filled in none / only non-last / some / all of them) and structs with unexported fields in first, middle and last position; slices of structs include elements that embed structs by value with unexported fields in first and middle position and with nested struct members (elements are not pointerified; the element with an unexported field in LAST position is generated only with VERIF_C10_TRAILING_UNEXPORTED=1 while finding anonflatten-trailing-unexported is open); leaf types include maps of a NAMED empty struct (map[string]Unit, map[int]Unit, *map[string]Unit), which are not sets: the set->slice mangler leaves them alone and they reverse unchanged; leaf types include maps whose KEY type is time.Duration (map[Duration]string, map[Duration][]int, map[Duration]Duration, map[Duration][]Duration, map[Duration]map[string]Duration, []map[Duration]int, *map[Duration]string, map[string]map[Duration]int), always filled with 1..3 entries, so that the Duration substitution has to translate and reverse map keys alone and together with values; embeddable types also nest: two and three levels of embedding, by value and by pointer at each level, with leaves at every level (anonymous-flatten hoists ONE level per struct: the inner embedded struct stays an embedded field of the level it was hoisted to, and its own embedded structs are hoisted into it); elements of slices of structs also have ARRAYS of structs not behind a pointer ([2]NestA, [3]Leafy with a set and a duration, different values per slot), which every recursing mangler is applied to slot by slot; slices of structs also have elements with pointer-to-struct members and a nested value struct holding one ([]Node, 0..3 elements with different values; one sub-transformer serves all elements); TWO independent fills are reverse-translated one after the other by the same transformers (after the all-empty value), each judged on its own, then every earlier result is judged again against a freshly built expectation (a later ReverseTranslate must not change a value returned earlier: key earlier-result-mutated) and must be address-disjoint from the new result including the returned struct itself (key results-share-memory); leaf types include a string-like text type whose UnmarshalText keeps any text verbatim (Label; also inside slice elements) and integer-keyed sets; with probability 1/2 the text written for text-unmarshalable leaves (top level, nested, inside slice elements) gets surrounding whitespace (trailing blank / leading tab + trailing newline / whitespace only): the expected value is what the type's OWN UnmarshalText makes of exactly that text (kept verbatim for string-like types), and if the type itself rejects it (time.Time, net.IP, a missing prefix) ReverseTranslate must return an error, never a value (key rejected-text-accepted); with probability 1/2 every set in a written value (the leaf, sets inside elements and nested structs, string and integer keys) also holds the key type's zero value, combined with the empty value the set is exactly {zero}; a subset of the original leaves is written THROUGH their translated counterparts (values from seeds, converted forward by the model: set->slice, Duration->ParsingDuration, own text rendering for string casts, the type's own MarshalText for text-unmarshalers), for every aliased field through either the primary or the alias copy; in 3 of 4 cases every slice written into the translated value (top level, inside maps / pointers / arrays, inside elements of slices of structs) carries 1..3 elements of spare capacity holding junk, as append-grown decoder output does; with probability 3/8 a written leaf takes its EMPTY value instead of the seeded one -- the empty string for string leaves (through a string cast: a translated *string pointing to \"\", which must reverse to a non-nil pointer to \"\", not to an unset leaf) and a non-nil empty slice / map / set for collections (text \"\" through a string cast). " +
+	"%s; embeddable types include structs with 2..3 differently typed nested struct members by value and by pointer between scalar leaves (hoisting them gives one input field several struct-typed outputs; leaves are filled in none / only non-last / some / all of them) and structs with unexported fields in first, middle and last position; slices of structs include elements that embed structs by value with unexported fields in first and middle position and with nested struct members (elements are not pointerified; the element with an unexported field in LAST position is generated only with VERIF_C10_TRAILING_UNEXPORTED=1 while finding anonflatten-trailing-unexported is open); leaf types include maps of a NAMED empty struct (map[string]Unit, map[int]Unit, *map[string]Unit), which are not sets: the set->slice mangler leaves them alone and they reverse unchanged; leaf types include maps whose KEY type is time.Duration (map[Duration]string, map[Duration][]int, map[Duration]Duration, map[Duration][]Duration, map[Duration]map[string]Duration, []map[Duration]int, *map[Duration]string, map[string]map[Duration]int), always filled with 1..3 entries, so that the Duration substitution has to translate and reverse map keys alone and together with values; embeddable types also nest: two and three levels of embedding, by value and by pointer at each level, with leaves at every level (anonymous-flatten hoists ONE level per struct: the inner embedded struct stays an embedded field of the level it was hoisted to, and its own embedded structs are hoisted into it); elements of slices of structs also have ARRAYS of structs not behind a pointer ([2]NestA, [3]Leafy with a set and a duration, different values per slot), which every recursing mangler is applied to slot by slot; slices of structs also have elements with pointer-to-struct members and a nested value struct holding one ([]Node, 0..3 elements with different values; one sub-transformer serves all elements); TWO independent fills are reverse-translated one after the other by the same transformers (after the all-empty value), each judged on its own, then every earlier result is judged again against a freshly built expectation (a later ReverseTranslate must not change a value returned earlier: key earlier-result-mutated) and must be address-disjoint from the new result including the returned struct itself (key results-share-memory); leaf types include NAMED slices / arrays of structs that are text leaves because UnmarshalText sits on the collection type while the element struct has none (PeerList []Peer at any level, PeerPair [2]Peer not behind a pointer inside slice elements): no mangler may recurse into them -- the translated field keeps the named type (or is the *string text form under the text-unmarshaler mangler) and a value written comes back verbatim; leaf types include a string-like text type whose UnmarshalText keeps any text verbatim (Label; also inside slice elements) and integer-keyed sets; with probability 1/2 the text written for text-unmarshalable leaves (top level, nested, inside slice elements) gets surrounding whitespace (trailing blank / leading tab + trailing newline / whitespace only): the expected value is what the type's OWN UnmarshalText makes of exactly that text (kept verbatim for string-like types), and if the type itself rejects it (time.Time, net.IP, a missing prefix) ReverseTranslate must return an error, never a value (key rejected-text-accepted); with probability 1/2 every set in a written value (the leaf, sets inside elements and nested structs, string and integer keys) also holds the key type's zero value, combined with the empty value the set is exactly {zero}; a subset of the original leaves is written THROUGH their translated counterparts (values from seeds, converted forward by the model: set->slice, Duration->ParsingDuration, own text rendering for string casts, the type's own MarshalText for text-unmarshalers), for every aliased field through either the primary or the alias copy; in 3 of 4 cases every slice written into the translated value (top level, inside maps / pointers / arrays, inside elements of slices of structs) carries 1..3 elements of spare capacity holding junk, as append-grown decoder output does; with probability 3/8 a written leaf takes its EMPTY value instead of the seeded one -- the empty string for string leaves (through a string cast: a translated *string pointing to \"\", which must reverse to a non-nil pointer to \"\", not to an unset leaf) and a non-nil empty slice / map / set for collections (text \"\" through a string cast). " +
 	"Oracle: a descriptor-level model of each mangler gives every translated field its documented key (flattened dials / dialsenv / dialsflag / dialspflag tag, json / yaml / toml tag or Go name per nesting level, alias value for alias copies), type and conversion; translated fields are located by that key only; required: TranslateType yields exactly the model's key set and leaf types at every level, the reverse-translated value has type T0, each written leaf holds the value converted back, every other leaf is nil, parent pointers are allocated iff a leaf below is set, and an all-empty translated value reverses to an all-nil T0. " +
 	"non-trivial = chain length >= 2 and the shape has nesting (or an aliased field before a nested one); distinct = distinct case JSON"
 
